@@ -1129,9 +1129,11 @@ pub(crate) fn interpret_isodatetime_offset(
 
     // 2. Let isoDateTime be CombineISODateAndTimeRecord(isoDate, time).
     // TODO: Deal with offsetBehavior == wall.
+    // NOTE: `Z` is the exact behaviour with an offset of zero.
+    let offset_nanos = if is_exact { Some(0) } else { offset_nanos };
     match (is_exact, offset_nanos) {
         // 4. If offsetBehaviour is exact, or offsetBehaviour is option and offsetOption is use, then
-        (true, Some(offset)) if offset_option == OffsetDisambiguation::Use => {
+        (exact, Some(offset)) if exact || offset_option == OffsetDisambiguation::Use => {
             // a. Let balanced be BalanceISODateTime(isoDate.[[Year]], isoDate.[[Month]],
             // isoDate.[[Day]], time.[[Hour]], time.[[Minute]], time.[[Second]], time.[[Millisecond]],
             // time.[[Microsecond]], time.[[Nanosecond]] - offsetNanoseconds).
